@@ -77,12 +77,14 @@ def dump_db(cli, db):
 
 
 class Model:
-    """drv_tx: one line per frame; answers (code reply, prescribed reply, same|differ)"""
+    """drv_tx: one line per frame; answers (reply of the source variant, prescribed reply, same|differ) and keeps
+    what the service of blocked clients after the frame delivers to other connections in `last_deliveries`"""
 
     def __init__(self):
         self.p = lean_driver(FAMILY)
         self.t0 = time.monotonic()
         self.lines = []
+        self.last_deliveries = ([], [])
 
     def now(self):
         return int((time.monotonic() - self.t0) * 1000) + 1000
@@ -98,23 +100,69 @@ class Model:
         self.lines = []
         assert self.ask("reset") == "ok"
 
+    @staticmethod
+    def _deliv(txt):
+        if txt == ".":
+            return []
+        out = []
+        for part in txt.split(" ; "):
+            cid, rep = part.split("=", 1)
+            out.append((int(cid), rep))
+        return out
+
     def frame(self, conn, args, watch_ok=True):
         a = self.ask("frame %d %d %d %s" % (conn, self.now(), 1 if watch_ok else 0, " ".join(hx(x) for x in args)))
-        code, spec, same = a.split(" # ")
+        code, spec, same, dcode, dspec = a.split(" # ")
+        self.last_deliveries = (self._deliv(dcode), self._deliv(dspec))
         return code, spec, same == "same"
 
     def disc(self, conn):
         assert self.ask("disc %d" % conn) == "ok"
 
     def conn(self, conn):
-        db, intx, qlen, ab = self.ask("conn %d" % conn).split()
+        db, intx, qlen, ab, bl = self.ask("conn %d" % conn).split()
         return int(db), intx == "1", int(qlen), ab == "1"
+
+    def blocked(self, conn):
+        return self.ask("conn %d" % conn).split()[4] == "1"
 
     def dump(self, db):
         return self.ask("dump %d %d" % (db, self.now()))
 
+    def dumpspec(self, db):
+        return self.ask("dumpspec %d %d" % (db, self.now()))
+
+    def waiters(self):
+        return self.ask("waiters")
+
     def close(self):
         self.p.close()
+
+
+def failed_oracle(impl, code, spec, same):
+    """the property's verdict on one reply: the implementation must answer what is prescribed, and when it
+    answers what the source variant of the model answers, that variant's state must be the prescribed one
+    (a model/implementation disagreement alone is not a verdict: dumps are compared with the prescribed state)"""
+    return impl != spec or (impl == code and not same)
+
+
+BPOP_KEYS = [b"l", b"bq", b"bq2", b"k1", b"miss"]
+
+
+def bpop_valid(c):
+    """a blocking pop the server accepts (name, >= 1 key, time-out an unsigned decimal integer)"""
+    return name_of(c) in ("BLPOP", "BRPOP") and len(c) >= 3 and c[-1].isdigit() and len(c[-1]) <= 15
+
+
+def named_keys(queue):
+    """every key a list of commands names (first argument; all keys of a blocking pop), in order, once"""
+    out = []
+    for c in queue:
+        ks = c[1:-1] if bpop_valid(c) else c[1:2]
+        for k in ks:
+            if k not in out:
+                out.append(k)
+    return out
 
 
 class QueueGen:
@@ -140,12 +188,17 @@ class QueueGen:
             elif k < 18 and specials:
                 out.append([b"SELECT", r.choice([b"1", b"1", b"0", b"2", b"16", b"abc", b"-1"])])
                 shapes.append("select")
-            elif k < 21 and specials:
-                key = r.choice([b"l", b"bq", b"k1"])
-                out.append([b"RPUSH", key, r.choice(ksgen.ELEMS)])
-                out.append([r.choice([b"BLPOP", b"BRPOP"]), key, r.choice([b"0", b"1", b"5"])])
-                shapes += ["push", "bpop-served"]
-            elif k < 23:
+            elif k < 26 and specials:
+                # blocking pop inside MULTI: BLPOP / BRPOP, 1-2 keys, lists empty / missing / non-empty / of another type
+                keys = [r.choice(BPOP_KEYS) for _ in range(r.range(1, 2))]
+                sh = "bpop%dk" % len(keys)
+                if r.chance(1, 2):
+                    out.append([r.choice([b"RPUSH", b"LPUSH"]), r.choice(keys)] + [r.choice(ksgen.ELEMS) for _ in range(r.range(1, 2))])
+                    shapes.append("push")
+                    sh += "-after-push"
+                out.append([r.choice([b"BLPOP", b"BRPOP"])] + keys + [r.choice([b"0", b"0", b"1", b"5"])])
+                shapes.append(sh)
+            elif k < 28:
                 out.append([r.choice([b"BLPOP", b"BRPOP"]), b"l"] + r.choice([[], [b"abc"], [b"-1"]]))
                 shapes.append("bpop-bad")
             else:
@@ -162,12 +215,13 @@ class Twin:
         self.A = Server("c07a")
         self.T = Server("c07t")
         self.model = Model()
-        self.a = self.A.client()
+        self.a = self.A.client(timeout=2.0)
         self.b = self.A.client()          # observer on A
-        self.t = self.T.client()
+        self.t = self.T.client(timeout=2.0)
         self.tobs = self.T.client()
         self.cid = 0
         self.deaths = 0
+        self.restarts = 0
 
     def close(self):
         for c in (self.a, self.b, self.t, self.tobs):
@@ -188,8 +242,47 @@ class Twin:
         self.cid += 1
         self.a.close()
         self.t.close()
-        self.a = self.A.client()
-        self.t = self.T.client()
+        self.a = self.A.client(timeout=2.0)
+        self.t = self.T.client(timeout=2.0)
+
+    def restart(self):
+        """new server processes (after a failure that may have left state no FLUSHALL removes, e.g. a waiter)"""
+        for c in (self.a, self.b, self.t, self.tobs):
+            c.close()
+        self.A.stop()
+        self.T.stop()
+        self.A = Server("c07a")
+        self.T = Server("c07t")
+        self.a, self.b = self.A.client(timeout=2.0), self.A.client()
+        self.t, self.tobs = self.T.client(timeout=2.0), self.T.client()
+        self.restarts += 1
+
+    def turn(self, cli, n=3):
+        """let the event loop turn n times (wake-ups, time-outs, clean-ups are loop work between frames)"""
+        try:
+            n0 = cli.cmd("VERIF", "LOOP")[1]
+            for _ in range(5000):
+                if cli.cmd("VERIF", "LOOP")[1] >= n0 + n:
+                    return
+        except (Closed, TimeoutError, ProtocolError, OSError, TypeError, IndexError):
+            pass
+
+    def direct_equiv(self, cli, c):
+        """what the property prescribes for a queued command, sent directly: a blocking pop inside MULTI acts as
+        its non-blocking variant (first key with an element: [key, element]; none: null array)"""
+        if not bpop_valid(c):
+            return self.impl(cli, c)
+        pop = b"LPOP" if name_of(c) == "BLPOP" else b"RPOP"
+        for k in c[1:-1]:
+            try:
+                r = cli.cmd(pop, k)
+            except (Closed, TimeoutError, ProtocolError, OSError) as e:
+                return "closed:" + type(e).__name__
+            if r[0] == "b":
+                return "( a ( b %s ) ( b %s ) )" % (hx(k), hx(r[1]))
+            if r[0] != "nb":
+                return canon_reply(pop.decode(), r)
+        return "( na )"
 
     def impl(self, cli, args, names=None):
         """one request / one reply, canonical text; a closed connection or a malformed reply is an outcome"""
@@ -210,16 +303,20 @@ def run_twin_case(tw, case, rep=None):
     m, cid = tw.model, tw.cid
     res = {"steps": [], "oracle": [], "disagree": [], "tags": set()}
 
-    def step(conn_cli, args, what, names=None, conn=None):
-        impl = tw.impl(conn_cli, args, names)
-        code, spec, same = m.frame(cid if conn is None else conn, args)
+    def record(impl, code, spec, same, args, what):
         st = {"frame": [hx(x) for x in args], "text": " ".join(repr(x.decode("latin-1")) for x in args), "what": what,
               "impl": impl, "code": code, "spec": spec, "same": same}
         res["steps"].append(st)
         if impl != code:
             res["disagree"].append(st)
-        if impl != spec or not same:
-            res["oracle"].append(dict(st, why="reply or resulting state differs from the prescribed one"))
+        if failed_oracle(impl, code, spec, same):
+            res["oracle"].append(dict(st, why="reply (or the state the model's source variant reaches with it) differs from the prescribed one"))
+        return st
+
+    def step(conn_cli, args, what, names=None, conn=None):
+        impl = tw.impl(conn_cli, args, names)
+        code, spec, same = m.frame(cid if conn is None else conn, args)
+        record(impl, code, spec, same, args, what)
         return impl
 
     def oracle(ok, why, **kw):
@@ -238,6 +335,7 @@ def run_twin_case(tw, case, rep=None):
         r = step(tw.a, [b"DISCARD"], "discard-without-multi")
         oracle(r == "( e )", "DISCARD without MULTI must be refused", got=r)
 
+    exec_reply = None
     if mode["pipelined"]:
         # MULTI, the queue and the terminator in ONE write; replies read afterwards
         term = {"exec": b"EXEC", "discard": b"DISCARD"}[mode["end"]]
@@ -247,24 +345,19 @@ def run_twin_case(tw, case, rep=None):
             raw = [tw.a.read_reply() for _ in frames]
         except (Closed, TimeoutError, ProtocolError, OSError) as e:
             raw = None
-            res["oracle"].append({"why": "pipelined transaction: connection failed (%s)" % type(e).__name__})
+            res["oracle"].append({"why": "pipelined transaction: connection failed or reply malformed (%s)" % type(e).__name__})
         if raw is not None:
             for i, f in enumerate(frames):
                 last = i == len(frames) - 1
                 impl = canon_exec(names, raw[i]) if (last and term == b"EXEC") else canon_reply(name_of(f), raw[i])
                 code, spec, same = m.frame(cid, f)
-                st = {"frame": [hx(x) for x in f], "text": " ".join(repr(x.decode("latin-1")) for x in f), "what": "pipelined", "impl": impl,
-                      "code": code, "spec": spec, "same": same}
-                res["steps"].append(st)
-                if impl != code:
-                    res["disagree"].append(st)
-                if impl != spec or not same:
-                    res["oracle"].append(dict(st, why="reply or resulting state differs from the prescribed one"))
+                st = record(impl, code, spec, same, f, "pipelined")
                 if 0 < i < len(frames) - 1:
                     oracle(impl == QUEUED, "a command between MULTI and EXEC must be answered QUEUED", got=impl, frame=st["text"])
             exec_reply = res["steps"][-1]["impl"] if term == b"EXEC" else None
         else:
-            exec_reply = None
+            for f in frames:
+                m.frame(cid, f)
     else:
         r = step(tw.a, [b"MULTI"], "multi")
         oracle(r == OK, "MULTI must answer OK", got=r)
@@ -283,7 +376,6 @@ def run_twin_case(tw, case, rep=None):
             oracle(mid == before, "queued commands took effect before EXEC", before=before, after=mid)
             if rep:
                 rep.evaluations += 1
-        exec_reply = None
         if mode["end"] == "exec":
             exec_reply = step(tw.a, [b"EXEC"], "exec", names=names)
         elif mode["end"] == "discard":
@@ -292,15 +384,8 @@ def run_twin_case(tw, case, rep=None):
         elif mode["end"] == "disconnect":
             tw.a.close()
             m.disc(cid)
-            # let the loop turn a few times so that "dropped" is not merely "not yet executed"
-            try:
-                n0 = tw.b.cmd("VERIF", "LOOP")[1]
-                for _ in range(2000):
-                    if tw.b.cmd("VERIF", "LOOP")[1] >= n0 + 3:
-                        break
-            except (Closed, TimeoutError, ProtocolError, OSError, TypeError, IndexError):
-                pass
-            tw.a = tw.A.client()
+            tw.turn(tw.b)       # so that "dropped" is not merely "not yet executed"
+            tw.a = tw.A.client(timeout=2.0)
         elif mode["end"] == "quit":
             r = step(tw.a, [b"QUIT"], "quit-in-multi")       # the code queues it, and closes the connection
             try:
@@ -310,38 +395,59 @@ def run_twin_case(tw, case, rep=None):
                 pass
             m.disc(cid)
             tw.a.close()
-            tw.a = tw.A.client()
+            tw.a = tw.A.client(timeout=2.0)
 
     if mode["end"] == "exec":
-        # ---- the property's oracle: EXEC = the same commands sent directly, one after another
-        direct = [tw.impl(tw.t, c) for c in queue]
+        # ---- the property's oracle: EXEC = the same commands sent directly, one after another (a blocking pop
+        #      acting as its non-blocking variant)
+        direct = [tw.direct_equiv(tw.t, c) for c in queue]
         want = "( a%s )" % "".join(" " + x for x in direct)
         oracle(exec_reply == want, "EXEC's array differs from the replies of the same commands sent directly to the twin",
                exec=exec_reply, direct=want)
-        dbs = [0, 1, 2] if any(n == "SELECT" for n in names) else [0]
-        for db in dbs:
-            da, dt = dump_db(tw.b, db), dump_db(tw.tobs, db)
-            dm = m.dump(db)
-            oracle(da == dt, "dataset after EXEC differs from the twin's after the direct commands (db %d)" % db, exec_dump=da, direct_dump=dt)
-            if da != dm:
-                res["disagree"].append({"what": "dump db %d" % db, "impl": da, "code": dm})
+        if rep:
+            for c, d in zip(queue, direct):
+                if bpop_valid(c):
+                    out = "nil" if d == "( na )" else ("error" if d == "( e )" else "served")
+                    rep.count("twin.bpop-in-exec.%s.%dkey.%s" % (name_of(c), len(c) - 2, out))
+                    rep.nontrivial(("bpop-in-exec", name_of(c), len(c) - 2, out))
         after = step(tw.a, [b"EXEC"], "exec-again")
         oracle(after == "( e )", "transaction state not cleared by EXEC", got=after)
     else:
-        # ---- nothing may have been applied
-        da = dump_db(tw.b, 0)
-        dm = m.dump(0)
-        if mode["check_before"]:
-            oracle(da == before, "a transaction ended by %s changed the dataset" % mode["end"], before=before, after=da)
-        if da != dm:
-            res["disagree"].append({"what": "dump db 0", "impl": da, "code": dm})
-            if not mode["check_before"]:
-                oracle(False, "a transaction ended by %s changed the dataset" % mode["end"], model=dm, after=da)
         if mode["end"] != "discard":
             tw.cid += 1           # the model sees the reconnected client as a new connection
-            cid = tw.cid
         after = step(tw.a, [b"EXEC"], "exec-after-" + mode["end"], conn=tw.cid)
         oracle(after == "( e )", "transaction state survived %s" % mode["end"], got=after)
+        if mode["check_before"]:
+            da = dump_db(tw.b, 0)
+            oracle(da == before, "a transaction ended by %s changed the dataset" % mode["end"], before=before, after=da)
+
+    # ---- post-transaction probe: once the transaction is over it has no further effect. Another connection
+    #      pushes to every key the transaction named (on A and on the twin, and in the model); afterwards the
+    #      dataset must be the twin's (which ran the commands directly / not at all) and the prescribed one
+    probes = [[b"RPUSH", k, b"probe"] for k in named_keys(queue)[:6]] if mode.get("probe", True) else []
+    for pc in probes:
+        impl = tw.impl(tw.b, pc)
+        code, spec, same = m.frame(9001, pc)
+        record(impl, code, spec, same, pc, "probe")
+        if m.last_deliveries[1]:
+            oracle(False, "the model prescribes a delivery to a blocked client in a twin case (harness error)", deliveries=m.last_deliveries[1])
+        tw.impl(tw.tobs, pc)
+    if probes:
+        if rep:
+            rep.count("twin.probe.push-after-%s" % mode["end"], len(probes))
+            rep.nontrivial(("probe", mode["end"], any(bpop_valid(c) for c in queue)))
+        tw.turn(tw.b)
+        tw.turn(tw.tobs)
+    dbs = [0, 1, 2] if any(n == "SELECT" for n in names) else [0]
+    for db in dbs:
+        da, dt = dump_db(tw.b, db), dump_db(tw.tobs, db)
+        dm, ds = m.dump(db), m.dumpspec(db)
+        what = "after EXEC" if mode["end"] == "exec" else "after a transaction ended by %s" % mode["end"]
+        oracle(da == dt, "dataset %s and later pushes by another connection differs from the twin's (same commands sent directly%s, same pushes) (db %d)"
+               % (what, "" if mode["end"] == "exec" else " - none, the transaction was dropped", db), impl_dump=da, twin_dump=dt)
+        oracle(da == ds, "dataset %s and later pushes by another connection differs from the prescribed one (db %d)" % (what, db), impl_dump=da, prescribed=ds)
+        if da != dm:
+            res["disagree"].append({"what": "dump db %d" % db, "impl": da, "code": dm})
     for st in res["steps"]:
         if "( noresponse )" in st["code"]:
             res["tags"].add("blocking-in-exec")
@@ -370,7 +476,7 @@ def protocol_scenarios(tw, rep):
         rep.evaluations += 1
         if impl != code:
             out["disagree"].append(st)
-        if impl != spec or not same:
+        if failed_oracle(impl, code, spec, same):
             out["oracle"].append(dict(st, why="reply or resulting state differs from the prescribed one"))
         return impl
 
@@ -444,9 +550,32 @@ def classify(res, findings):
 CONTROL = ("MULTI", "EXEC", "DISCARD", "WATCH", "UNWATCH", "SELECT")
 
 
+BLOCK_KEYS = [b"bq", b"bq2", b"l"]
+BLOCKER_SLOTS = (10, 11)
+
+
+def list_traffic(r):
+    """commands that create, consume, move or remove the lists blocked clients wait on"""
+    k = r.below(10)
+    key = r.choice(BLOCK_KEYS)
+    if k < 4:
+        return [r.choice([b"RPUSH", b"LPUSH"]), key] + [r.choice([b"a", b"b", b"c"]) for _ in range(r.range(1, 2))]
+    if k < 6:
+        return [r.choice([b"LPOP", b"RPOP"]), key]
+    if k == 6:
+        return [b"RENAME", r.choice([b"l", b"bq", b"k1"]), key]
+    if k == 7:
+        return [b"DEL", key]
+    if k == 8:
+        return [b"LLEN", key]
+    return [b"SET", key, b"notalist"]
+
+
 def run_interleaved(rep, tw, r, n_events, given=None):
-    """2-3 connections on server A, one request at a time in a random (or given) order.  Returns
-    (case, oracle failures, model disagreements); `case` = {setup, nconn, events} replays exactly."""
+    """2-3 connections on server A plus up to two third-party clients that block in BLPOP/BRPOP, one request at
+    a time in a random (or given) order.  The model predicts every reply AND which blocked client is served
+    what after which frame (never inside an EXEC).  Returns (case, oracle failures, model disagreements);
+    `case` = {setup, nconn, events} replays exactly."""
     tw.fresh()
     m = tw.model
     g = QueueGen(r)
@@ -455,54 +584,97 @@ def run_interleaved(rep, tw, r, n_events, given=None):
         tw.impl(tw.b, c)
         m.frame(9000, c)
     nconn = given["nconn"] if given else r.range(2, 3)
-    clis, ids, qn = {}, {}, {}
+    clis, ids, qn, blocked = {}, {}, {}, set()
     nxt = [100 * tw.cid]
 
     def connect(slot):
         nxt[0] += 1
         ids[slot] = nxt[0]
-        clis[slot] = tw.A.client()
-    for s in range(nconn):
+        clis[slot] = tw.A.client(timeout=2.0)
+    for s in list(range(nconn)) + list(BLOCKER_SLOTS):
         connect(s)
     events, oracle, disagree = [], [], []
+
+    def note(key):
+        if rep:
+            rep.count(key)
+
+    def deliveries(i, after):
+        """what the service of blocked clients after the last frame must have sent to them"""
+        dcode, dspec = m.last_deliveries
+        got = []
+        for cid, want in dspec:
+            slot = next((sl for sl, c in ids.items() if c == cid), None)
+            if slot is None:
+                oracle.append({"event": i, "why": "harness: delivery prescribed for an unknown connection %d" % cid})
+                continue
+            try:
+                have = canon_reply("", clis[slot].read_reply(2.0))
+            except (Closed, TimeoutError, ProtocolError, OSError) as e:
+                have = "nothing:" + type(e).__name__
+            got.append((cid, have))
+            blocked.discard(slot)
+            note("il.served.after-%s" % after)
+            if rep:
+                rep.nontrivial(("il", "served", after, have == want))
+            if have != want:
+                oracle.append({"event": i, "why": "a blocked client was not served what is prescribed after this frame", "conn": slot, "got": have, "prescribed": want, "tag": None})
+        if [x for x in dcode] != got and dcode != dspec:
+            disagree.append({"event": i, "what": "deliveries", "impl": got, "code": dcode})
+
     try:
-        for i in range(len(given["events"]) if given else n_events):
+        total = len(given["events"]) if given else n_events
+        for i in range(total):
             if given:
                 slot, kind, hexargs = given["events"][i]
                 args = [unhx(x) for x in hexargs]
             else:
-                slot = r.below(nconn)
-                _, intx, _, _ = m.conn(ids[slot])
-                k = r.below(100)
-                kind = "frame"
-                if intx:
-                    if k < 55:
-                        args = g.queue(1, specials=False)[0][0]
-                    elif k < 72:
-                        args = [b"EXEC"]
-                    elif k < 80:
-                        args = [b"DISCARD"]
-                    elif k < 85:
-                        args = [b"MULTI"]
-                    elif k < 89:
-                        args = [b"WATCH", b"k1"]
-                    elif k < 92:
-                        args = [b"UNWATCH"]
-                    elif k < 96:
-                        kind, args = "disc", []
-                    else:
-                        args = [b"SELECT", r.choice([b"0", b"1"])]
+                free_blockers = [sl for sl in BLOCKER_SLOTS if sl not in blocked]
+                if free_blockers and r.chance(1, 9):
+                    slot = r.choice(free_blockers)
+                    kind = "block"
+                    args = [r.choice([b"BLPOP", b"BRPOP"])] + [r.choice(BLOCK_KEYS) for _ in range(r.range(1, 2))] + [b"0"]
                 else:
-                    if k < 30:
-                        args = [b"MULTI"]
-                    elif k < 36:
-                        args = [b"SELECT", r.choice([b"0", b"1", b"1", b"16"])]
-                    elif k < 40:
-                        args = [r.choice([b"EXEC", b"DISCARD"])]
-                    elif k < 43:
-                        kind, args = "disc", []
+                    slot = r.below(nconn)
+                    _, intx, _, _ = m.conn(ids[slot])
+                    k = r.below(100)
+                    kind = "frame"
+                    if intx:
+                        if k < 30:
+                            args = g.queue(1, specials=False)[0][0]
+                        elif k < 55:
+                            args = list_traffic(r)
+                        elif k < 72:
+                            args = [b"EXEC"]
+                        elif k < 80:
+                            args = [b"DISCARD"]
+                        elif k < 84:
+                            args = [b"MULTI"]
+                        elif k < 87:
+                            args = [b"WATCH", b"k1"]
+                        elif k < 89:
+                            args = [b"UNWATCH"]
+                        elif k < 92:
+                            kind, args = "disc", []
+                        elif k < 96:
+                            args = [r.choice([b"BLPOP", b"BRPOP"])] + [r.choice(BLOCK_KEYS) for _ in range(r.range(1, 2))] + [b"0"]
+                        else:
+                            args = [b"SELECT", r.choice([b"0", b"1"])]
                     else:
-                        args = g.queue(1, specials=False)[0][0]
+                        if k < 30:
+                            args = [b"MULTI"]
+                        elif k < 36:
+                            args = [b"SELECT", r.choice([b"0", b"1", b"1", b"16"])]
+                        elif k < 40:
+                            args = [r.choice([b"EXEC", b"DISCARD"])]
+                        elif k < 43:
+                            kind, args = "disc", []
+                        elif k < 68:
+                            args = list_traffic(r)
+                        else:
+                            args = g.queue(1, specials=False)[0][0]
+            if given and slot in blocked:
+                continue          # (shrunk schedules) a blocked client sends nothing
             events.append([slot, kind, [hx(x) for x in args]])
             cid = ids[slot]
             if kind == "disc":
@@ -513,8 +685,36 @@ def run_interleaved(rep, tw, r, n_events, given=None):
             _, intx, qlen, _ = m.conn(cid)
             nm = name_of(args)
             names = qn.get(cid, []) if (nm == "EXEC" and intx) else None
-            impl = tw.impl(clis[slot], args, names)
             code, spec, same = m.frame(cid, args)
+            deliv = m.last_deliveries
+            if spec == "( noresponse )":
+                # the client blocks: nothing to read now; what it receives later is checked when it is served
+                try:
+                    clis[slot].send(*args)
+                    impl = "( noresponse )"
+                except OSError:
+                    impl = "closed:OSError"
+                blocked.add(slot)
+                note("il.blocked")
+                # the next event must find this client registered: wait until the registry of its first key has as
+                # many waiters as the model (frames of different sockets are otherwise processed in socket order)
+                key0 = args[1]
+                want_n = sum(1 for w in m.waiters().split(";") if w != "." and hx(key0) in w.split(":")[3].split(","))
+                for _ in range(3000):
+                    try:
+                        reg = tw.b.cmd("VERIF", "BLOCKED")
+                    except (Closed, TimeoutError, ProtocolError, OSError):
+                        break
+                    have_n = 0
+                    if reg[0] == "a":
+                        items = reg[1]
+                        for j in range(0, len(items) - 1, 2):
+                            if items[j] == ("b", key0) and items[j + 1][0] == "a":
+                                have_n = len(items[j + 1][1])
+                    if have_n >= want_n:
+                        break
+            else:
+                impl = tw.impl(clis[slot], args, names)
             _, intx2, qlen2, _ = m.conn(cid)
             if intx and intx2 and qlen2 == qlen + 1:
                 qn.setdefault(cid, []).append(nm)
@@ -522,27 +722,60 @@ def run_interleaved(rep, tw, r, n_events, given=None):
                 qn[cid] = []
             st = {"event": i, "conn": slot, "text": " ".join(repr(x.decode("latin-1")) for x in args), "impl": impl, "code": code, "spec": spec,
                   "same": same, "in_tx": intx}
-            cls = nm if nm in CONTROL else "cmd"
+            cls = nm if nm in CONTROL else ("bpop" if nm in ("BLPOP", "BRPOP") else ("push" if nm in ("LPUSH", "RPUSH") else "cmd"))
             if rep:
                 rep.evaluations += 1
                 rep.count("il.%s.%s" % ("tx" if intx else "idle", cls))
-                rep.nontrivial(("il", intx, cls, "err" if impl == "( e )" else ("queued" if impl == QUEUED else "ok")))
+                rep.nontrivial(("il", intx, cls, "err" if impl == "( e )" else ("queued" if impl == QUEUED else ("blocks" if impl == "( noresponse )" else "ok")),
+                                bool(blocked), bool(deliv[1])))
             if impl != code:
                 disagree.append(st)
-            if impl != spec or not same:
+            if failed_oracle(impl, code, spec, same):
                 oracle.append(dict(st, tag="select-in-exec" if (nm == "EXEC" and "SELECT" in (names or [])) else None))
+            m.last_deliveries = deliv
+            deliveries(i, "exec" if (nm == "EXEC" and intx) else ("push-in-tx" if intx else "direct"))
+            if nm == "EXEC" and intx and blocked:
+                note("il.exec-with-blocked-third-party")
             if impl.startswith("closed"):
                 break
+        # ---- nobody may stay blocked into the next case: every waiter is served by a push to its first key
+        for _ in range(8):
+            w = m.waiters()
+            if w == ".":
+                break
+            first = w.split(";")[0].split(":")
+            key = unhx(first[3].split(",")[0])
+            pc = [b"RPUSH", key, b"zz"]
+            events.append([-1, "drain", [hx(x) for x in pc]])
+            if first[1] != "0":
+                raise InternalError("harness: a third-party client waits in database %s" % first[1])
+            tw.impl(tw.b, [b"DEL", key])          # whatever the key holds by now, the push must succeed
+            m.frame(9000, [b"DEL", key])
+            impl = tw.impl(tw.b, pc)
+            code, spec, same = m.frame(9000, pc)
+            if failed_oracle(impl, code, spec, same):
+                oracle.append({"event": "drain", "text": "RPUSH %r zz" % key, "impl": impl, "spec": spec, "tag": None})
+            deliveries("drain", "drain")
+        tw.turn(tw.b)
+        for sl in BLOCKER_SLOTS:
+            if not clis[sl].nothing_pending(0.01):
+                oracle.append({"event": "end", "why": "a third-party client received a reply nobody prescribed", "conn": sl, "tag": None})
+        if blocked:
+            oracle.append({"event": "end", "why": "harness: clients still blocked at the end of the schedule", "slots": sorted(blocked), "tag": None})
         for db in (0, 1):
-            da, dm = dump_db(tw.b, db), m.dump(db)
+            da, dm, ds = dump_db(tw.b, db), m.dump(db), m.dumpspec(db)
             if rep:
                 rep.evaluations += 1
+            if da != ds:
+                oracle.append({"event": "final dump db %d" % db, "why": "dataset differs from the prescribed one", "impl": da, "prescribed": ds, "tag": None})
             if da != dm:
                 disagree.append({"event": "final dump db %d" % db, "impl": da, "code": dm})
     finally:
         for c in clis.values():
             c.close()
-    case = {"kind": "interleaved", "setup": [[hx(x) for x in c] for c in setup], "nconn": nconn, "events": events}
+    case = {"kind": "interleaved", "setup": [[hx(x) for x in c] for c in setup], "nconn": nconn, "events": [e for e in events if e[1] != "drain"]}
+    if oracle or disagree:
+        tw.restart()        # a waiter may have been left behind: no FLUSHALL removes it
     return case, oracle, disagree
 
 
@@ -782,7 +1015,7 @@ def main(tier, seed):
                 kind = "err" if st["impl"] == "( e )" else ("queued" if st["impl"] == QUEUED else "ok")
                 rep.nontrivial(("twin", st["what"], kind))
             for sh, c in zip(shapes, q):
-                rep.count("twin.slot." + ("fails" if sh == "fails" else sh if sh in ("select", "bpop-served", "bpop-bad", "push") else "cmd"))
+                rep.count("twin.slot." + ("fails" if sh == "fails" else sh if (sh in ("select", "push") or sh.startswith("bpop")) else "cmd"))
                 rep.nontrivial(("slot", name_of(c), sh[:6], case["mode"]["end"]))
             if res["steps"] and case["mode"]["end"] == "exec":
                 ex = [s for s in res["steps"] if s["what"] in ("exec", "pipelined")]
@@ -877,6 +1110,8 @@ def main(tier, seed):
         what, rp, res = sorted(new_fail, key=lambda x: (x[1].get("kind") not in ("twin", "interleaved"), x[1].get("kind") != "twin", len(json.dumps(x[1]))))[0]
         if rp.get("kind") == "twin":
             rp = shrink_twin(rp, findings)
+        elif rp.get("kind") == "interleaved":
+            rp = shrink_interleaved(rp, findings)
         detail = {k: (sorted(v) if isinstance(v, set) else v) for k, v in res.items()} if isinstance(res, dict) else {}
         rep.violation("C07: " + what, {"replay": rp, "family": FAMILY, "observed": _trim(detail),
                                        "more": [w0 for w0, _, _ in new_fail[1:6]], "lean_errors": errs[:5]})
@@ -922,6 +1157,32 @@ def shrink_twin(rp, findings):
         return out
     except (InternalError, OSError):
         return rp
+    finally:
+        tw.close()
+
+
+def shrink_interleaved(case, findings):
+    """delta-debug the event list (then the set-up) of a failing interleaved schedule"""
+    rep = Report(PID, "shrink", 0)
+    tw = Twin(rep)
+
+    def fails(c):
+        _, orc, dis = run_interleaved(None, tw, Rng(0), 0, given=c)
+        return bool(orc) and not (not dis and all(o.get("tag") in findings for o in orc))
+    try:
+        if not fails(case):
+            return case
+        small = dict(case)
+        if len(small["events"]) > 1:
+            small["events"] = shrink_list(small["events"], lambda ev: fails(dict(small, events=ev)), max_steps=70)
+        if len(small["setup"]) > 1:
+            small["setup"] = shrink_list(small["setup"], lambda su: fails(dict(small, setup=su)), max_steps=20)
+        small["shrunk_from"] = {"events": len(case["events"]), "setup": len(case["setup"])}
+        small["text"] = {"setup": [" ".join(unhx(x).decode("latin-1") for x in c) for c in small["setup"]],
+                         "events": ["conn %s: %s" % (e[0], "<disconnects>" if e[1] == "disc" else " ".join(unhx(x).decode("latin-1") for x in e[2])) for e in small["events"]]}
+        return small
+    except (InternalError, OSError):
+        return case
     finally:
         tw.close()
 
